@@ -157,5 +157,16 @@ def run(ctx):
              and any(k.arg == "tid" and dotted(k.value) == cl.positional_params()[1] for k in c.keywords) for c in _calls(cl.node))
     r2.check(ok, f"{cl.module.relpath}::{cl.qual}", "send('cancel_task', tid=job_id)", "Client.cancel does not send cancel_task with the job id", cl.where)
 
+    from .evalhelpers import local_client_witness
+    _n, cdiffs, cunsup = local_client_witness(ctx)
+    if cunsup is None:
+        cd = [d for d in cdiffs if "cancel" in d or "flushed" in d]
+        r2.check(not cd, "src/gwf/backends/local.py::LocalOps.cancel_job::request", "cancel_job(id) sends exactly one flushed cancel_task request with that id", "; ".join(cd[:2]), cl.where)
+    from .evalhelpers import server_session_witness
+    n_w, diffs, unsup = server_session_witness(ctx)
+    diffs = [d for d in diffs if "cancel" in d or "scheduler calls" in d]
+    if unsup is None:
+        r2.check(not diffs, "src/gwf/backends/local.py::Server.handle_connection::cancel_task", "the pool's server hands a cancel_task request to scheduler.cancel_task(<that id>)",
+                 "; ".join(diffs[:2]), cl.where)
     r3 = ctx.rule("R3", "after cancellation the next run is free to resubmit (CANCELLED/FAILED rows of the decision table)")
     rule_decision_table(ctx, r3)
